@@ -4,7 +4,7 @@
 package environment
 
 // Every scope has a table; parents are set at construction only.
-//@ cellinv H_environment_Environment_Values m: m != nil
+//@ cellinv H_environment_Environment_Values m: m != nil && mapAllocated(m)
 
 //@ func NewEnvironment [C03]
 //@ ensures [fresh] fresh(result) && envParent(result) == 0 && envTable(result) != 0
